@@ -431,6 +431,17 @@ func ExchangeConn(c net.Conn, m *Msg) (r *Msg, err error) {
 	if err = co.WriteMsg(m); err != nil {
 		return nil, err
 	}
+	if isPacketConn(c) {
+		// As in ExchangeWithConnContext: over datagrams replies with other IDs
+		// are skipped until the matching one, or the deadline of c, arrives.
+		for {
+			r, err = co.ReadMsg()
+			if r != nil && r.Id != m.Id {
+				continue
+			}
+			return r, err
+		}
+	}
 	r, err = co.ReadMsg()
 	if err == nil && r.Id != m.Id {
 		err = ErrId
